@@ -23,6 +23,8 @@ CONSTANTS Family,            \* "logic" | "logic6" | "access"   which atom vocab
           MaxDepth,          \* nesting depth of and/or/not
           SampleSize,        \* 0 = all conditions of that depth; otherwise a random subset of that size (RandomSubset)
           NegUnionFlipsEach,
+          NegNestedUnionFlips, \* deviation (TRUE = before the fix, refuted by TLC at depth 3): not_ over an and_ / or_ that CONTAINS a union-form or_
+                               \* below it flips the outputs one by one instead of pushing the negation down by De Morgan
           FalsyObjs,         \* objects of the world whose Python truth value is False (a class with __bool__ / __len__); R never looks at it
           OperandTruthFilter \* deviation (TRUE = before the fix, refuted by TLC): a comparison drops a binding whose already bound
                              \* variable operand holds a falsy value (the operand's result is filtered by its truth value)
@@ -161,8 +163,14 @@ EvCmp(e, b, dom) ==
                  IN [b |-> F2[j].b, f |-> ~res]]])
 IsUnion(e) == e[1] = "or" /\ VarsOf(e[2]) # VarsOf(e[3])
 \* not_(): a Not node over anything, except (after the fix) De Morgan over a union-form or_
-RECURSIVE Inv(_)
-Inv(e) == IF ~NegUnionFlipsEach /\ IsUnion(e) THEN <<"and", Inv(e[2]), Inv(e[3])>> ELSE <<"notnode", e>>
+RECURSIVE Inv(_), HasUnion(_)
+HasUnion(e) == CASE e[1] \in {"and", "or"} -> IsUnion(e) \/ HasUnion(e[2]) \/ HasUnion(e[3])
+                 [] e[1] \in {"not", "notnode"} -> HasUnion(e[2])
+                 [] OTHER -> FALSE
+Inv(e) == IF ~NegUnionFlipsEach /\ IsUnion(e) THEN <<"and", Inv(e[2]), Inv(e[3])>>
+          ELSE IF ~NegNestedUnionFlips /\ e[1] = "and" /\ HasUnion(e) THEN <<"or", Inv(e[2]), Inv(e[3])>>
+          ELSE IF ~NegNestedUnionFlips /\ e[1] = "or" /\ ~IsUnion(e) /\ HasUnion(e) THEN <<"and", Inv(e[2]), Inv(e[3])>>
+          ELSE <<"notnode", e>>
 Ev(e, b, dom) ==
   CASE e[1] \in {"cmp", "in"} -> EvCmp(e, b, dom)
     [] e[1] = "and" -> LET Lft == Ev(e[2], b, dom)
